@@ -20,6 +20,8 @@ pub enum Case {
     CbcLastByte { v: u8, wellformed: bool, blocks: usize },
     /// operations on ONE mode object; the last one is judged. op = 0..=5, see `seq_op`
     History { mode: String, seq: Vec<u16> },
+    /// the mode object is built on one thread and used on fresh threads (moved in) that never built one
+    CrossThread { mode: String },
 }
 
 pub const MODES: [&str; 4] = ["cbc", "cfb", "ofb", "ctr"];
@@ -99,6 +101,21 @@ fn eval(ctx: &Ctx, case: &Case) {
             match &dec {
                 Guard::Done(Ok(pt)) if *pt == data => {}
                 other => ctx.violation(&site_d, &format!("roundtrip/{}", len_class(*len)), format!("len={} iv={} -> {}", len, iv, dbg(other)), cj()),
+            }
+        }
+        Case::CrossThread { mode } => {
+            let k = h16(STD_KEY);
+            let ivb = [0x3cu8; 16];
+            let data = content("seed", 37, ctx.seed);
+            let want = ref_enc(mode, &k, &ivb, &data);
+            ctx.calls(3);
+            ctx.trace();
+            let Guard::Done(Ok(m)) = guard(|| Sm4CipherMode::new(&k, mk(mode))) else { return };
+            let (d2, w2) = (data.clone(), want.clone());
+            let r = std::thread::spawn(move || guard(|| (m.decrypt(&w2, &ivb), m.encrypt(&d2, &ivb)))).join();
+            match r {
+                Ok(Guard::Done((Ok(pt), Ok(ct)))) if pt == data && ct == want => ctx.outcome("ok/cross-thread"),
+                other => ctx.violation(&format!("Sm4CipherMode[{}]", mode), "wrong-result-on-another-thread", truncate(&format!("{:?}", other.map(|g| g.map(|(a, b)| (a.map(hex::encode), b.map(hex::encode))))), 200), cj()),
             }
         }
         Case::BadIv { mode, ivlen, datalen } => {
@@ -259,7 +276,7 @@ pub fn run(ctx: &Arc<Ctx>) {
     refmodels::selftest::run(&["sm4"]).unwrap_or_else(|e| ctx.machinery_error(format!("reference self-test failed: {}", e)));
     corpus_selftest(ctx);
     let lmax = ctx.tier.pick(200usize, 1100);
-    ctx.set_rule("mode x every data length 0..=Lmax x {standard key, seeded key} x IV in {0, seeded, last j bytes 0xFF for j=0..=16} x content {zero, seeded}, and long data {255..257, 1023..1025, 4095..4097, 4111, 65553 bytes; thorough up to 2^20+5} x IVs whose counter is about to carry out of 1, 2 and 8 bytes: ciphertext = reference mode output (length included), library decrypts the reference ciphertext back to the data. Error side: IV lengths 0..=32, CBC ciphertext of every length 0..=Lmax, CBC final plaintext byte every value 0..=255 (well-formed and malformed padding). Plus all operation sequences to depth 3 (thorough 4) on one mode object per mode. Oracle: textbook modes over the reference block cipher, pinned by an OpenSSL-generated corpus.");
+    ctx.set_rule("mode x every data length 0..=Lmax x {standard key, seeded key} x IV in {0, seeded, last j bytes 0xFF for j=0..=16} x content {zero, seeded}, and long data {255..257, 1023..1025, 4095..4097, 4111, 65553 bytes; thorough up to 2^20+5} x IVs whose counter is about to carry out of 1, 2 and 8 bytes: ciphertext = reference mode output (length included), library decrypts the reference ciphertext back to the data. Error side: IV lengths 0..=32 and 16 + {256, 512, 65536}, CBC ciphertext of every length 0..=Lmax, CBC final plaintext byte every value 0..=255 (well-formed and malformed padding). Plus all operation sequences to depth 3 (thorough 4) on one mode object per mode. Oracle: textbook modes over the reference block cipher, pinned by an OpenSSL-generated corpus.");
     ctx.note_bound(format!("Lmax={}", lmax));
     let seed_key = hex::encode(seeded(ctx.seed, "c07key", 16));
     let mut ivs: Vec<String> = vec![hex::encode([0u8; 16]), hex::encode(seeded(ctx.seed, "c07iv", 16))];
@@ -280,6 +297,11 @@ pub fn run(ctx: &Arc<Ctx>) {
                     }
                 }
             }
+        }
+        cases.push(Case::CrossThread { mode: mode.into() });
+        // IV lengths that equal 16 modulo 256 / 65536 are wrong lengths too
+        for ivlen in [16usize + 256, 16 + 512, 16 + 65536] {
+            cases.push(Case::BadIv { mode: mode.into(), ivlen, datalen: 33 });
         }
         for ivlen in 0..=32usize {
             if ivlen != 16 {
